@@ -1028,7 +1028,9 @@ def _rev_fetcher_check(cf):
 
     def strip(fn, drop_from, n):
         lines = textwrap.dedent(inspect.getsource(fn)).splitlines()
-        i = next(k for k, ln in enumerate(lines) if drop_from in ln)
+        i = next((k for k, ln in enumerate(lines) if drop_from in ln), None)
+        if i is None:
+            return fn
         j = i
         while j > 0 and lines[j - 1].strip().startswith('#'):
             j -= 1
@@ -1165,7 +1167,7 @@ def judge(out, traces, label, defects, count=True):
 def _exc_site(tb):
     """innermost /repo frame + exception type of a traceback text"""
     site = '?'
-    for m in re.finditer(r'File "/repo/cflib/([^"]+)", line \d+, in (\w+)', tb or ''):
+    for m in re.finditer(r'File "[^"]*/cflib/([^"]+)", line \d+, in (\w+)', tb or ''):
         site = '%s:%s' % (m.group(1).rsplit('/', 1)[-1], m.group(2))
     m = re.search(r'\n(\w+(?:Error|Exception))\b[^\n]*\s*$', (tb or '').rstrip() + '\n')
     return site, (m.group(1) if m else 'Exception')
@@ -1419,6 +1421,9 @@ def main(tier, seed, replay=None):
         #    schedule, the real code with the fix reverted IN MEMORY is driven along it (step 4 judges the traces)
         f_rev = {}
         for name, (_inst, sw, over, inv) in sorted(REVERTS.items()):
+            if set(sw) <= set(defects):
+                out.sensitivity['mutant:' + name] = 'not applicable: the tree under test still has %s' % '+'.join(sw)
+                continue
             o = dict(Defects=_tla_set(sorted(set(defects) | set(sw))), INVARIANTS=[inv])
             o.update(over)
             f_rev[name] = small.submit(search, 'rev' + name.split(':')[1].split('-')[0], **o)
